@@ -44,6 +44,11 @@ type World struct {
 	specFnSig  map[string]*SpecFn
 
 	modsets map[*ssa.Function]map[string]bool
+	fnSrc   map[*ssa.Parameter]*fnValSrc
+	// invariants every API call preserves; assumed across calls of caller-supplied callbacks
+	CallbackInv     []*Clause
+	CallbackProtect []string
+	CallbackProps   []string
 	ifaceOf map[string]types.Type // "(pkg.Iface).Method" -> interface type, from invoke sites
 	allocs  map[*ssa.Function]bool
 	callers map[*ssa.Function][]*ssa.Function
@@ -396,7 +401,7 @@ func (w *World) initSignature() {
 	)
 	w.axioms = append(w.axioms,
 		"(assert (forall ((s Str)) (! (>= (gstr.len s) 0) :pattern ((gstr.len s)))))",
-		"(assert (forall ((a (Array Int Int)) (o Int) (l Int)) (! (= (gstr.len (gstr.of a o l)) l) :pattern ((gstr.of a o l)))))",
+		"(assert (forall ((a (Array Int Int)) (o Int) (l Int)) (! (=> (>= l 0) (= (gstr.len (gstr.of a o l)) l)) :pattern ((gstr.of a o l)))))",
 		"(assert (forall ((a Int) (i Int)) (! (and (= (elt$arr (elt a i)) a) (= (elt$idx (elt a i)) i) (= (root (elt a i)) (root a)) (= (subtag (elt a i)) 1) (< (elt a i) 0)) :pattern ((elt a i)))))",
 		"(assert (forall ((t Int) (v Int)) (! (and (> (box t v) 0) (= (dyntype (box t v)) t) (= (ifaceval (box t v)) v)) :pattern ((box t v)))))",
 		"(assert (= (root 0) 0))",
